@@ -67,7 +67,7 @@ def as_map(v):
 def as_set(v):
     v = deref(v)
     if isinstance(v, SetV): return v
-    if hasattr(v, 'as_setv'): return v
+    if getattr(v, 'as_setv', False): return v
     raise Unsupported('expected set, got ' + type(v).__name__)
 
 
@@ -282,3 +282,97 @@ def _collect_map(ex, items, ty):
 
 COLLECTORS['HashSet'] = _collect_set; COLLECTORS['BTreeSet'] = _collect_set
 COLLECTORS['HashMap'] = _collect_map; COLLECTORS['BTreeMap'] = _collect_map
+
+
+# ------------------------------------------------------------------ HashSet<usize> over a bounded universe
+class BitSetV:
+    """HashSet<usize> with elements in 0..n-1: one (python | z3) boolean per possible element.
+    Membership stays symbolic; iteration decides membership element by element, in ascending order."""
+    rust_type = 'HashSet'
+    as_setv = True
+
+    def __init__(self, n, bits=None): self.n = n; self.bits = list(bits) if bits is not None else [False] * n
+    def clone(self): return BitSetV(self.n, self.bits)
+    def __repr__(self): return 'BitSet%r' % (self.bits,)
+
+    def _k(self, ex, key):
+        key = deref(key)
+        k = ex.concretize(key, 0, self.n - 1) if is_sym(key) else key
+        if not (0 <= k < self.n): raise Unsupported('BitSetV element %r outside universe %d' % (k, self.n))
+        return k
+
+    def add(self, ex, key):
+        k = self._k(ex, key); old = self.bits[k]; self.bits[k] = True
+        return simp(b_not(old))
+
+    def contains(self, ex, key):
+        key = deref(key)
+        if is_sym(key):
+            return simp(b_or(*[b_and(eq(key, i), self.bits[i]) for i in range(self.n)]))
+        if not (0 <= key < self.n): return False
+        return self.bits[key]
+
+    def index(self, ex, key):
+        c = self.contains(ex, key)
+        c = ex.decide(c) if is_sym(c) else c
+        return 0 if c else None
+
+    def remove(self, ex, key):
+        k = self._k(ex, key); old = self.bits[k]; self.bits[k] = False; return old
+
+    def size(self, ex):
+        t = 0
+        for b in self.bits: t = t + (ite(b, 1, 0) if is_sym(b) else int(b))
+        return simp(t) if is_sym(t) else t
+
+    def members(self, ex):
+        out = []
+        for i, b in enumerate(self.bits):
+            if ex.decide(b) if is_sym(b) else b: out.append(i)
+        return out
+
+    def iter_items(self, ex): return [Ref([i], 0) for i in self.members(ex)]
+
+    def algebra(self, ex, kind, other):
+        if not isinstance(other, BitSetV): raise Unsupported('BitSetV algebra with ' + type(other).__name__)
+        if kind == 'intersection': bits = [simp(b_and(a, b)) for a, b in zip(self.bits, other.bits)]
+        elif kind == 'union': bits = [simp(b_or(a, b)) for a, b in zip(self.bits, other.bits)]
+        else: bits = [simp(b_and(a, b_not(b))) for a, b in zip(self.bits, other.bits)]
+        return BitSetV(self.n, bits)
+
+    def eq_model(self, ex, other):
+        return simp(b_and(*[eq(zbool(a) if is_sym(b) else a, zbool(b) if is_sym(a) else b) for a, b in zip(self.bits, other.bits)]))
+
+
+def bitset_stubs(h, n):
+    """make every HashSet<usize> of the code under test a BitSetV over 0..n-1 (harness binding)."""
+    import re as _re
+    def R(p, f): h.stub_res.append((_re.compile(p), f))
+    U = r'(?:std::collections::)?HashSet::<usize>'
+    R(U + r'::new', lambda ex, a, m: BitSetV(n))
+    R(r'<(?:std::collections::)?HashSet<usize> as From<\[usize; \d+\]>>::from', lambda ex, a, m: _from_items(ex, n, seq_of(ex, a[0])))
+    R(r'<.* as Iterator>::collect::<(?:std::collections::)?HashSet<usize>>', lambda ex, a, m: _collect_bitset(ex, n, a[0]))
+    R(U + r'::insert', lambda ex, a, m: deref(a[0]).add(ex, a[1]))
+    R(U + r'::contains(?:::<.*>)?', lambda ex, a, m: deref(a[0]).contains(ex, a[1]))
+    R(U + r'::remove(?:::<.*>)?', lambda ex, a, m: deref(a[0]).remove(ex, a[1]))
+    R(U + r'::len', lambda ex, a, m: deref(a[0]).size(ex))
+    R(U + r'::is_empty', lambda ex, a, m: simp(eq(deref(a[0]).size(ex), 0)))
+    R(U + r'::(intersection|union|difference)', lambda ex, a, m: deref(a[0]).algebra(ex, m.group(1), deref(a[1])))
+    R(r'<&(?:std::collections::)?HashSet<usize> as (?:std::ops::)?Sub>::sub', lambda ex, a, m: deref(a[0]).algebra(ex, 'difference', deref(a[1])))
+    R(r'<(?:std::collections::)?HashSet<usize> as PartialEq>::(eq|ne)', lambda ex, a, m: (deref(a[0]).eq_model(ex, deref(a[1])) if m.group(1) == 'eq' else simp(b_not(deref(a[0]).eq_model(ex, deref(a[1]))))))
+    R(r'<(?:std::collections::)?HashSet<usize> as Clone>::clone', lambda ex, a, m: deref(a[0]).clone())
+    R(r'<(?:std::collections::hash_set::)?(?:Intersection|Union|Difference)<.*usize.*> as Iterator>::(copied|cloned)(?:::<.*>)?', lambda ex, a, m: a[0])
+
+
+def _from_items(ex, n, items):
+    s = BitSetV(n)
+    for x in items: s.add(ex, x)
+    return s
+
+
+def _collect_bitset(ex, n, src):
+    src = deref(src) if not isinstance(src, (SeqIter, BitSetV)) else src
+    if isinstance(src, BitSetV): return src.clone()
+    s = BitSetV(n)
+    for x in seq_of(ex, src): s.add(ex, deref(x))
+    return s
